@@ -80,14 +80,14 @@ impl Core {
     let mem_ptr = &mut self.memory as *mut MemoryAreas;
     // push high byte of IP
     {
-      self.registers.sp = self.registers.sp.wrapping_sub(1);
+      self.registers.sp = self.registers.sp.wrapping_sub(1) & 0xffff;
       let sp = self.registers.sp as u16;
       memory_write_byte(mem_ptr, sp, old_ip_high);
     }
     let interrupts_updated = self.memory.io.get_active_interrupts();
     // push low byte of IP
     {
-      self.registers.sp = self.registers.sp.wrapping_sub(1);
+      self.registers.sp = self.registers.sp.wrapping_sub(1) & 0xffff;
       let sp = self.registers.sp as u16;
       memory_write_byte(mem_ptr, sp, old_ip_low);
     }
